@@ -213,7 +213,7 @@ def gen_histories(r, surface, quick):
     methods = [(c, m) for c, ms in sorted(surface.items()) for m in ms]
     r.shuffle(methods)
     per = 12
-    take = methods if not quick else methods[:120]
+    take = methods
     # promoted event / evm methods crash: they are exercised by the corpus on their own
     take = [(c, m) for c, m in take if not (m.get("promoted") and m["name"] in ("PostInterchainEvent", "CrossInvokeEVM"))
             and not (c == "interbroker" and m["name"] in ("InvokeInterchain", "InvokeReceipt", "EmitInterchain"))]
@@ -222,10 +222,11 @@ def gen_histories(r, surface, quick):
         ops = []
         for c, m in take[i:i + per]:
             poor = gas == 1 and r.random() < 0.3
-            ops += r.sample(method_ops(r, c, m, "u:1" if poor else "u:0", poor), 2)
+            mo = method_ops(r, c, m, "u:1" if poor else "u:0", poor)
+            ops += r.sample(mo, 2) if quick else mo
         out.append(dict(cfg=dict(admins=4, gas=gas, audit=r.random() < 0.3, bal="1000000000000000", proof=r.choice(["", "parallel"])), pre=SEED,
                         blocks=[ops[j:j + 9] for j in range(0, len(ops), 9)], blk_kw={}))
-    for _ in range(6 if quick else 120):
+    for _ in range(10 if quick else 150):
         gas = r.choice([0, 1])
         poor = gas == 1 and r.random() < 0.4
         frm = "u:1" if poor else "u:0"
